@@ -66,6 +66,15 @@ TABLE = [
      '200-path sweep. Oracle: per-path log of acknowledged payloads vs gunzipped content of every file; a raise is legitimate only if the '
      'failing open happened with no other descriptor open.',
      'The OS is an in-memory store: only open() fails, and only as injected; after a legitimate raise the run stops.'),
+    ('C01',
+     'bounded-exhaustive enumeration of read-pair class words x strategies x loader configurations through the real loader loop, FASTQ reader and gzip writers; accounting oracle (each input pair exactly once in demultiplexed XOR rejects, mate-synchronised, counters = records written)',
+     'For each of the 28 registered strategies: all words of length <=2 over a 10-22 letter alphabet of read-pair classes (whitelisted, '
+     '1-mismatch, unknown, truncated, short, empty, N, composite-branch classes, 8 header shapes) plus the word with every class, x '
+     'paired/single end x rejects on/off x joint/per-cell x Hamming expansion x maxReadPairs (quick: default configuration and all at '
+     'distance 1; thorough: full product), a phred sweep (thorough: all 0..93) and a 7000-pair per-cell word that drives the handle limiter '
+     'through prune and re-open. Outputs are parsed strictly and accounted per input id.',
+     'Without a reject handle only the demultiplexed side and the counters are compared; one strategy per run; '
+     'CHROMC16U12 rejects everything (emptied whitelist).'),
 ]
 
 # id -> reason it is currently not claimed
